@@ -30,12 +30,21 @@ class Vacuity(RuntimeError):
 
 
 def load_findings(prop):
-    try:
-        with open(KF_PATH) as f:
-            allf = json.load(f)
-    except OSError:
-        return {}
-    return {e["id"]: e for e in allf.get("findings", []) if e["property"] == prop}
+    """Committed known findings: KNOWN_FINDINGS.json (plus per-property files in findings.d/,
+    merged into the main file when a property's check is integrated). Never written at run time."""
+    import glob
+
+    out = {}
+    for path in [KF_PATH] + sorted(glob.glob(os.path.join(VERIF, "findings.d", "*.json"))):
+        try:
+            with open(path) as f:
+                allf = json.load(f)
+        except OSError:
+            continue
+        for e in allf.get("findings", []):
+            if e["property"] == prop:
+                out[e["id"]] = e
+    return out
 
 
 class Ctx:
